@@ -47,6 +47,11 @@ pub trait Monitor: Sync + Send {
     fn digest_block(&self) -> u64 {
         0
     }
+    /// the monitor has a phase that one extra worker per configuration runs after all the others,
+    /// with the machine to itself (`ctx.solo`)
+    fn solo_phase(&self) -> bool {
+        false
+    }
     /// the space explored by `run` is finite and enumerated completely
     fn exhaustive(&self) -> bool {
         false
